@@ -184,38 +184,61 @@ abbrev Map := List (Bytes × Bytes)
 structure State where
   store : Map
   cache : Map
+  /-- every (hash, chain) pair that was handed to `storage.Add` or written into the store: what the code may
+  legitimately cache under that hash (`add` caches its own argument, `getByHash` what it read) -/
+  known : List (Bytes × Bytes)
 deriving Repr
 
-def State.init : State := ⟨[], []⟩
+def State.init : State := ⟨[], [], []⟩
 
 inductive Op
-  /-- `storage.Add(hash, chain)`; an existing key is kept (duplicate-key errors are ignored by the SQL storages) -/
+  /-- `storage.Add(hash, chain)` succeeded; an existing key is kept (duplicate-key errors are ignored by the SQL
+  storages). The argument is remembered: `add` fills the cache with *its own argument*, not with the row. -/
   | add (h v : Bytes)
-  /-- the detached goroutine of `add` / `getByHash`: caches what the store holds under `h` -/
-  | asyncCacheSet (h : Bytes)
+  /-- the detached cache fill of `add` / `getByHash`; only enabled for a pair in `known` (see `cacheSetEnabled`) -/
+  | cacheSet (h v : Bytes)
   /-- LRU eviction of one key -/
   | evict (h : Bytes)
   /-- TTL expiry: everything goes -/
   | expire
+  /-- store damage: the row disappears -/
+  | delete (h : Bytes)
+  /-- store damage: the row's bytes are replaced -/
+  | tamper (h v : Bytes)
 deriving Repr
 
+def setKey (m : Map) (h v : Bytes) : Map := (h, v) :: m.filter (fun e => e.1 != h)
+
+def cacheSetEnabled (s : State) (h v : Bytes) : Bool := s.known.contains (h, v)
+
 def step (s : State) : Op → State
-  | .add h v => if (s.store.lookup h).isSome then s else { s with store := (h, v) :: s.store }
-  | .asyncCacheSet h =>
-    match s.store.lookup h with
-    | some v => { s with cache := (h, v) :: s.cache }
-    | none => s
+  | .add h v =>
+    if (s.store.lookup h).isSome then { s with known := (h, v) :: s.known }
+    else { s with store := (h, v) :: s.store, known := (h, v) :: s.known }
+  | .cacheSet h v => if cacheSetEnabled s h v then { s with cache := (h, v) :: s.cache } else s
   | .evict h => { s with cache := s.cache.filter (fun e => e.1 != h) }
   | .expire => { s with cache := [] }
+  | .delete h => { s with store := s.store.filter (fun e => e.1 != h) }
+  | .tamper h v => { s with store := setKey s.store h v, known := (h, v) :: s.known }
 
 def run (s : State) (ops : List Op) : State := ops.foldl step s
+
+/-- a history without store damage in which every chain is stored under its own key `c h` (content addressing:
+`h = H (c h)`; two submissions with one hash carry one chain) -/
+def Op.honest (c : Bytes → Bytes) : Op → Prop
+  | .add h v => v = c h
+  | .cacheSet _ _ => True
+  | .evict _ => True
+  | .expire => True
+  | .delete _ => False
+  | .tamper _ _ => False
 
 /-- faults that can be injected at the calls `getByHash` makes -/
 structure Faults where
   cacheGet : Bool := false
   storeFind : Bool := false
 
-inductive Err | cache | storage | unknownHash | corruptChain | unknownLayout | encode
+inductive Err | cache | storage | unknownHash | corruptChain | unknownLayout | encode | hashMismatch
 deriving Repr, DecidableEq
 
 instance : DecidableEq (Except Err Bytes) := fun a b =>
@@ -225,8 +248,8 @@ instance : DecidableEq (Except Err Bytes) := fun a b =>
   | .ok _, .error _ => isFalse (fun e => by cases e)
   | .error _, .ok _ => isFalse (fun e => by cases e)
 
-/-- `getByHash`: cache first, then storage. -/
-def getByHash (s : State) (f : Faults) (h : Bytes) : Except Err Bytes :=
+/-- the lookup of `getByHash` before any check of the bytes: cache first, then storage. -/
+def getByHashRaw (s : State) (f : Faults) (h : Bytes) : Except Err Bytes :=
   if f.cacheGet then .error .cache else
   match s.cache.lookup h with
   | some v => .ok v
@@ -235,6 +258,29 @@ def getByHash (s : State) (f : Faults) (h : Bytes) : Except Err Bytes :=
     match s.store.lookup h with
     | some v => .ok v
     | none => .error .unknownHash
+
+/-- the content-address check on what came back (`checkIssuanceChainHash`), when the code has it (`check`; the
+regenerated `Gen.getByHashVerifiesHash`) -/
+def verified (check : Bool) (H : Bytes → Bytes) (h : Bytes) : Except Err Bytes → Except Err Bytes
+  | .ok v => if check && H v != h then .error .hashMismatch else .ok v
+  | .error e => .error e
+
+/-- `getByHash` -/
+def getByHash (check : Bool) (H : Bytes → Bytes) (s : State) (f : Faults) (h : Bytes) : Except Err Bytes :=
+  verified check H h (getByHashRaw s f h)
+
+/-- faults at the calls `add` makes -/
+structure AddFaults where
+  cacheGet : Bool := false
+  storeAdd : Bool := false
+
+/-- `indirectIssuanceChainService.add`: a cache hit is taken as proof that the chain is stored (an error of the cache
+is ignored); otherwise `storage.Add`, whose failure refuses the submission before any leaf is built. The cache fill
+that follows a success is the separate op `cacheSet h v`. -/
+def addChain (s : State) (f : AddFaults) (h v : Bytes) : Except Err State :=
+  if !f.cacheGet && (s.cache.lookup h).isSome then .ok s
+  else if f.storeAdd then .error .storage
+  else .ok (step s (.add h v))
 
 /-! ### building and fixing leaves' extra data -/
 
@@ -245,6 +291,12 @@ def buildDirect (isPrecert : Bool) (cert : Bytes) (chain : List Bytes) : Option 
 /-- external mode: `ExtraDataForChainHash` over the hash of the DER chain -/
 def buildIndirect (H : Bytes → Bytes) (isPrecert : Bool) (cert : Bytes) (chain : List Bytes) : Option Bytes :=
   if isPrecert then encPCEH cert (H (derChain chain)) else encCCH (H (derChain chain))
+
+/-- `indirectIssuanceChainService.BuildLogLeaf` as a whole: where the code has the encoding check (`check`; the
+regenerated `Gen.indirectBuildChecksEncoding`) a chain whose in-backend extra data cannot be encoded is refused before
+anything is stored. -/
+def buildIndirectC (check : Bool) (H : Bytes → Bytes) (isPrecert : Bool) (cert : Bytes) (chain : List Bytes) : Option Bytes :=
+  if check && (buildDirect isPrecert cert chain).isNone then none else buildIndirect H isPrecert cert chain
 
 /-- the chain behind a hash field: none for an empty hash, else fetched and DER-decoded -/
 def inflate (get : Bytes → Except Err Bytes) (h : Bytes) : Except Err (List Bytes) :=
@@ -281,6 +333,15 @@ def fixLogLeaf (get : Bytes → Except Err Bytes) (extra : Bytes) : Except Err B
   match decCC extra with
   | some _ => .ok extra
   | none => .error .unknownLayout
+
+/-- the hash `FixLogLeaf` looks up for this extra data, if any (a hash layout with a non-empty hash field) -/
+def hashOfExtra (extra : Bytes) : Option Bytes :=
+  match decPCEH extra with
+  | some (_, h) => if h.length != 0 then some h else none
+  | none =>
+    match decCCH extra with
+    | some h => if h.length != 0 then some h else none
+    | none => none
 
 /-- does `FixLogLeaf` consult the store for this extra data (a hash layout with a non-empty hash)? -/
 def needsLookup (extra : Bytes) : Bool :=
